@@ -102,7 +102,7 @@ func checkGrammar(r *fw.R, s string) {
 		return
 	}
 	h := math.Max(oracle.HausdorffOneSided(rp, gp, 1, false), oracle.HausdorffOneSided(gp, rp, 1, false))
-	if h > 1e-6 {
+	if !(h <= 1e-6) {
 		r.Violate("grammar:geometry", fmt.Sprintf("ParseSVGPath(%q) = %s, which is %.4g away from what the grammar prescribes", s, oracle.Fmt(p.Data()), h))
 		return
 	}
